@@ -100,6 +100,10 @@ class Identifier(Node):
         parent = scope.scopename
         if parent:
             parent = parent[-1]
+            if parent.parsed is False:
+                # the enclosing selector is not resolved yet: this one cannot
+                # be rooted before it is (it is parsed again after the parent)
+                raise SyntaxError('Enclosing selector not resolved yet')
             if parent.parsed:
                 parsed_names = []
                 for name in names:
